@@ -340,6 +340,26 @@ def check_message_call(ctx, oid="C16.2", kinds=("p2wpkh", "p2wsh")):
         R.check(oid, "TYPE", fi, "%s: signed amount = the input's exact satoshi value" % kind,
                 bool(bvs) and tm.veq(amt_eff, T("round", (tm.mul([1e8, T("field", (bvs[0], "amount"))]),), tm.INT)),
                 "the signed amount is %s" % tm.show(amt_eff)[:160], example="an amount such as 0.29 BTC (float product truncates to 28999999)")
+        # the message is built over the list of inputs exactly as the selection loop produced it (same order as the amounts the
+        # messages are enumerated from), and that same list goes into the transaction
+        txc = [c for c in s.calls if c[0] == "bits.tx.tx"]
+        sel_lists = set(proj)
+        ins = rules.unfz(args[0]) if args else None
+        def same_list(v):
+            # the list itself, or one element per element of it, in its order (inputs rebuilt with their scriptSigs)
+            v = rules.unfz(v)
+            if tm.veq(tm._fz(v), tm._fz(ins)):
+                return True
+            if isinstance(v, T) and v.op == "map" and v.args[2] is None:
+                it = rules.unfz(v.args[1])
+                if isinstance(it, T) and it.op == "enumerate":
+                    it = rules.unfz(it.args[0])
+                return tm.veq(tm._fz(it), tm._fz(ins))
+            return False
+        okins = isinstance(ins, T) and ins.op == "loopout" and ins.args[0] in sel_lists and bool(txc) and all(same_list(c[1][0]) for c in txc if c[1])
+        R.check(oid, "PROV", fi, "%s: messages are built over the selection loop's own input list, in selection order, and the transaction carries that list" % kind, okins,
+                "witness_message is given inputs %s: not the list the selection loop built (re-ordered / rebuilt), or not the list the transaction carries" % tm.show(ins)[:120],
+                example="UTXOs reported in an order other than (txid, vout)")
         # the inputs that are signed and the inputs of the returned transaction are built with the same nSequence
         seqs = []
         for c in s.calls:
